@@ -91,8 +91,8 @@ Check(e) ==
     CASE e.kind = "ev" -> CheckEv(e)
       [] e.kind = "pos" -> CheckPos(e)
       [] e.kind = "quad" ->
-           Fails(<< <<"C01 equal-weight quadrature of the estimator = independently computed aperture (0.3 %)",
-                      FClose(e.est, Aperture(e.c, e.nNu, e.nTh), FDec("3e-3"), FZero)>> >>)
+           Fails(<< <<"C01 equal-weight quadrature of the estimator = independently computed aperture (0.4 %)",
+                      FClose(e.est, Aperture(e.c, e.nNu, e.nTh), FDec("4e-3"), FZero)>> >>)
       [] e.kind = "ret" -> Fails(<< <<"C02 __call__ returns one entry per kept trajectory", e.nkept = e.nret>> >>)
       [] OTHER -> <<"unknown event kind">>
 
